@@ -192,6 +192,7 @@ fn render(class: &str, tape: &[u8]) -> String {
             format!("{} {:?}", LAYOUTS[m.kind as usize].name, m).chars().take(1200).collect()
         }
         "golden" => format!("golden vector #{} from /repo/core/src/message", u32::from_le_bytes([tape[0], tape[1], tape[2], tape[3]])),
+        "bytes-raw" => format!("frame({})={}\nreference: {:?}", tape.len(), hex(&tape[..tape.len().min(400)]), decode_frame(tape).map(|m| LAYOUTS[m.kind as usize].name)),
         _ => {
             let b = bytes_input(tape);
             format!("frame({})={}\nreference: {:?}", b.len(), hex(&b[..b.len().min(400)]), decode_frame(&b).map(|m| LAYOUTS[m.kind as usize].name))
@@ -214,6 +215,8 @@ fn case(class: &str, tape: &[u8], _strict: bool) -> Outcome {
                 None => Outcome::fail("harness:golden-index", "no such golden vector"),
             }
         }
+        // raw class for the coverage-guided target: the tape is the frame
+        "bytes-raw" => bytes_case(tape),
         _ => bytes_case(&bytes_input(tape)),
     }
 }
